@@ -61,6 +61,24 @@ func initKeys() {
 	wg.Wait()
 }
 
+var (
+	poolJWKSOnce sync.Once
+	poolJWKSDoc  []byte
+)
+
+// poolJWKS is the JWKS document of the key pool (every key with its kid, use=sig).
+func poolJWKS() []byte {
+	poolJWKSOnce.Do(func() {
+		set := jose.JSONWebKeySet{}
+		for _, a := range allAlgs {
+			k := signers[a]
+			set.Keys = append(set.Keys, jose.JSONWebKey{Key: k.Public(), KeyID: k.Kid, Use: "sig", Algorithm: a})
+		}
+		poolJWKSDoc, _ = json.Marshal(set)
+	})
+	return poolJWKSDoc
+}
+
 var sentinels = []struct {
 	name string
 	err  error
